@@ -225,7 +225,7 @@ def model_check_pay(binary, workdir, tier):
 
 MC_FAMILIES = {  # cfg file, (quick depth, thorough depth)
     "timeout": ("MC_Timeout.cfg", (6, 9)), "did": ("MC_Did.cfg", (6, 8)), "super": ("MC_Super.cfg", (5, 7)), "reward": ("MC_Reward.cfg", (6, 7)), "auth": ("MC_Auth.cfg", (6, 7)),
-    "sidauth": ("MC_SidAuth.cfg", (7, 10)),
+    "sidauth": ("MC_SidAuth.cfg", (7, 9)),
     "sponsor": ("MC_Sponsor.cfg", (14, 16)),
     "fault": ("MC_Fault.cfg", (6, 8)),
 }
